@@ -178,6 +178,14 @@ func WireFileSource(w *spec.WCase, f *spec.WFile) string {
 	}
 	for i := range f.Sets {
 		s := &f.Sets[i]
+		if s.AliasOf != "" {
+			if f.VarBlock {
+				fmt.Fprintf(&body, "\t%s = %s\n", s.Name, s.AliasOf)
+			} else {
+				fmt.Fprintf(&body, "var %s = %s\n\n", s.Name, s.AliasOf)
+			}
+			continue
+		}
 		if f.VarBlock {
 			fmt.Fprintf(&body, "\t%s = wire.NewSet(\n", s.Name)
 		} else if s.Paren {
